@@ -165,6 +165,33 @@ Proof.
   vm_compute. repeat split; reflexivity.
 Qed.
 
+(* several files may declare the same namespace: what Registry.Add records (source, file) is keyed by the
+   TEMPLATE name.  Here z.soy, added after e.soy, declares namespace "a" too (template a.z, a much shorter
+   text): the error of a.e still carries e.soy and line 4 of e.soy's text -- a registry that looked the
+   file up by namespace would answer z.soy and line 3 (position 35 counted in z.soy's text), and for a
+   position further down (52, inside the content block) the slice of z.soy's 40 bytes would panic. *)
+Definition ex_src_z := Eval vm_compute in b "{namespace a}
+{template .z}
+{/template}
+".
+Definition ex_sibling : template :=
+  {| t_name := b "a.z"; t_node := NTemplate 23 (b "a.z") (NList 27 []) 0 false;
+     t_ns_name := b "a"; t_ns_autoescape := 0; t_params := []; t_file := b "z.soy" |}.
+Definition ex_cfg_ns : cfg :=
+  {| c_reg := {| r_templates := [ex_entry; ex_callee; ex_sibling];
+                 r_sources := [(b "a.e", ex_src_e); (b "a.c", ex_src_c); (b "a.z", ex_src_z)];
+                 r_files := [(b "a.e", b "e.soy"); (b "a.c", b "c.soy"); (b "a.z", b "z.soy")] |};
+     c_ij := None; c_oblig := []; c_msgs := None |}.
+Example C19_render_shared_namespace_nonvacuous :
+  let r := render ex_cfg_ns 50 (b "a.e") 2 [] None None 100 in
+  t_ns_name ex_entry = t_ns_name ex_sibling /\ t_file ex_entry <> t_file ex_sibling
+  /\ rr_outcome r = Err e_undefined /\ rr_file r = b "e.soy" /\ rr_line r = 4
+  /\ line_number ex_src_z 35 = Some 3 /\ line_number ex_src_z 52 = None.
+Proof.
+  cbv zeta. split; [reflexivity|]. split; [vm_compute; discriminate|].
+  vm_compute. repeat split; reflexivity.
+Qed.
+
 (* at depth 0: the same entry template with a failing print on line 3 instead of the text *)
 Definition ex_entry0 : template :=
   {| t_name := b "a.e";
@@ -364,3 +391,24 @@ b
 {/template}
 ")) = Some (pit_DollarIdent, 5, 8).
 Proof. vm_compute. repeat split; reflexivity. Qed.
+
+(* With the scanner invariant of Proofs/LexerProofs.v (wt-lex: lex_items_pos_le): every item the
+   scanner sends lies inside the input, so `unexpected` about a scanner item never trips over
+   lineNumber's slice: it returns the error positioned at that item, whose line is inside the file. *)
+From Soy Require Import Proofs.LexerProofs.
+Open Scope N_scope.
+Theorem C19_unexpected_on_scanner_item :
+  forall ul ud, ul (-1)%Z = false -> ud (-1)%Z = false ->
+  forall fuel mode s ts, lex_items ul ud fuel mode s = Ok ts ->
+  forall t, In t ts ->
+    t_pos t <= N.of_nat (length s) /\ 1 <= line_at s (t_pos t) <= lines s /\
+    forall A ctx st, exists cls, @c_unexp (N.of_nat (length s)) A t ctx st = CErr t cls st.
+Proof.
+  intros ul ud Hl Hd fuel mode s ts Hlex t Hin.
+  pose proof (lex_items_pos_le ul ud Hl Hd fuel mode s ts Hlex) as Hall.
+  rewrite Forall_forall in Hall. specialize (Hall t Hin).
+  split; [exact Hall|]. split; [apply line_at_inside|].
+  intros A ctx st. destruct (unexpected_reports_its_token (N.of_nat (length s)) A t ctx st _ eq_refl) as [H _].
+  exact (H Hall).
+Qed.
+Print Assumptions C19_unexpected_on_scanner_item.
